@@ -61,6 +61,13 @@ def run(ctx):
         for ts, ex in ((M.TS, M.EX), (None, None)):
             cases.append({"w": wire.case("build_root_metadata", CLOCKS[0] + 1, CLOCKS[0], 3, rk, 1, kk, 1, ts, ex), "meta": {"tag": "valid", "fn": "brm"}})
 
+    # one of the two times left to the builder, the other given and NOT well formed: still an argument error (each time is checked on its own)
+    badtimes = ["tomorrow", 91, "2030-02-30T00:00:00Z", "2030-01-01", "2030-01-01T00:00:00", b"2030-01-01T00:00:00Z", "", ["2030-01-01T00:00:00Z"], 1.5, True]
+    for bt in badtimes:
+        for ts, ex in ((bt, None), (None, bt)):
+            cases.append({"w": wire.case("build_delegating_metadata", CLOCKS[0], CLOCKS[0], "key_mgr", {}, 1, ts, ex), "meta": {"tag": "one-time-defaulted", "fn": "bdm"}})
+            cases.append({"w": wire.case("build_root_metadata", CLOCKS[0] + 1, CLOCKS[0], 1, [k[0]], 1, [k[3]], 1, ts, ex), "meta": {"tag": "one-time-defaulted", "fn": "brm"}})
+
     def rel(c, io, mo):
         return None if io == mo else "builder outcome differs: implementation %s ... model %s ..." % (io[:120], mo[:120])
 
